@@ -63,11 +63,15 @@ class World:
             if name in ("exists", "is_file"):
                 if p == W.hash_path:
                     return [(W.old_map is not None, st)]
+                if p in st.meta.get("vfiles", {}):
+                    return [(True, st)]
                 if W.missing == "all-but-contents":
                     return [(p in W.contents, st)]
                 return [(p not in W.missing, st)]
             if name in ("read_bytes", "read_text"):
                 st.trace.append(("read", p))
+                if p in st.meta.get("vfiles", {}):
+                    return [(st.meta["vfiles"][p], st)]  # a file this run has written is read back as written
                 if p == W.hash_path:
                     return [(Opaque("vcontent", "hashmap"), st)]
                 if p == W.wl_path:
@@ -77,6 +81,10 @@ class World:
                 return [(new_text({"FILE:" + p}, "content"), st)]
             if name == "write_text":
                 st.trace.append(("write_text", p, snapshot(I, args[0], st) if args else None))
+                if args and isinstance(args[0], str):
+                    st.meta["vfiles"] = {**st.meta.get("vfiles", {}), p: args[0]}
+                elif p in st.meta.get("vfiles", {}) or p in W.contents:
+                    st.note(f"abstract text written to {p}")
                 return [(None, st)]
             if name == "open":
                 mode = args[0] if args else kwargs.get("mode", "r")
